@@ -290,8 +290,20 @@ mod model {
             }
         }
 
-        /// `Driver::flush()`: (submit,) reset the flag, report "already notified"
+        /// `Driver::flush()`: arm the notifier if needed (io_uring, since fix 774453e: `arm_notifier()`
+        /// runs in `flush()` as well as in `poll()`), (submit,) reset the flag, report "already notified"
         pub fn flush(&mut self) -> bool {
+            if self.n.kind == Kind::Iour && self.need_push {
+                let n = self.n.clone();
+                let mut k = n.k.lock().unwrap();
+                k.armed = true;
+                if k.efd > 0 {
+                    n.post_cqe(&mut k);
+                }
+                n.publish(&k);
+                drop(k);
+                self.need_push = false;
+            }
             self.n.awake.reset()
         }
 
